@@ -17,12 +17,16 @@ TRANSLATORS = []
 RULE = (
     'disks: frequency ratio in {1/4,1/3,1/2,1,2,..,8} x sign, pulse frequency in Hz / kHz / 1/min (frequency possibly '
     'in another of these units), 1..6 slits cut from 2k distinct points of one turn starting at a random base angle '
-    '(so the last slit may span top-dead-centre), shuffled, in deg or rad; beam position and phase rational multiples '
-    'of a turn in [-3,3] in deg or rad; 1..4 pulses. Rejection streams: ratios r(1+d) for d in {0,+-1e-9,+-1e-8,'
-    '+-1.1e-8,+-1e-7,...}, non-integer ratios, pulse frequency <= 0; slit sets that overlap, touch, are inverted, have '
-    'different lengths, or overlap only across top-dead-centre. A case is distinct by its exact rational inputs; it is '
-    'non-trivial when it has at least one slit and a non-zero beam position or phase (times), or reaches the '
-    'comparison branch of a rejection test.'
+    '(so the last slit may span top-dead-centre), shuffled; beam position and phase over [-3,3] turns; 1..4 pulses. '
+    'Dtype and unit are chosen INDEPENDENTLY per operand: phase, beam_position, slit_begin/slit_end each in '
+    '{float64, float32, int64, int32} x {deg, rad, mrad} (integer degrees that are not whole radians, e.g. 45 deg, '
+    'integer radians, integer mrad), frequency and pulse_frequency each in {float64, float32, int64, int32} x '
+    '{Hz, kHz, 1/min} where the stored number is exact and scipp converts the pulse frequency exactly (else float64); '
+    'the model and the oracle take the exact value of the typed input. Rejection streams: ratios r(1+d) for d in '
+    '{0,+-1e-9,+-1e-8,+-1.1e-8,+-1e-7,...}, non-integer ratios, pulse frequency <= 0; slit sets that overlap, touch, '
+    'are inverted, have different lengths, or overlap only across top-dead-centre. A case is distinct by its exact '
+    'typed inputs; it is non-trivial when it has at least one slit and a non-zero beam position or phase (times), or '
+    'reaches the comparison branch of a rejection test.'
 )
 ASSUMPTIONS = [
     'the implementation computes in radians with floating-point 2*pi; the model computes in turns over the rationals: '
@@ -143,11 +147,10 @@ def _rat(rng, lo, hi, den):
     return Fraction(rng.randint(int(lo * den), int(hi * den)), den)
 
 
-def gen_slits(rng, k=None):
+def gen_slits(rng, k=None, den=720):
     """k non-overlapping slits within one turn from a base angle, as exact fractions of a turn; gaps and widths
-    are at least 1/720 turn. The last slit may extend beyond 1 turn (spans TDC)."""
+    are at least 1/den turn. The last slit may extend beyond 1 turn (spans TDC)."""
     k = k or rng.randint(1, 6)
-    den = 720
     base = Fraction(rng.randrange(0, den), den) if rng.random() < 0.8 else Fraction(0)
     pts = sorted(rng.sample(range(0, den), 2 * k))   # offsets within the turn, distinct
     slits = [(base + Fraction(pts[2 * i], den), base + Fraction(pts[2 * i + 1], den)) for i in range(k)]
@@ -162,21 +165,114 @@ def gen_slits(rng, k=None):
     return slits
 
 
-def gen_disk(rng):
+DTYPES = ['float64', 'float32', 'int64', 'int32']
+INV_2PI = Fraction(1.0 / (2.0 * math.pi))          # 1/(2 pi) to 1.1e-16 relative: radians -> turns
+ANGLE_TURNS = {'deg': Fraction(1, 360), 'rad': INV_2PI, 'mrad': INV_2PI / 1000}
+ANGLE_UNITS = ['deg', 'deg', 'rad', 'mrad']
+
+
+def _representable(v: Fraction, dtype: str) -> bool:
+    """can the rational v be stored without rounding in a scalar of this dtype?"""
+    if dtype in ('int64', 'int32'):
+        return v.denominator == 1 and abs(v) < (2**31 if dtype == 'int32' else 2**62)
+    if dtype == 'float32':
+        return Fraction(float(np.float32(float(v)))) == v
+    return True     # float64: the nearest double is used (1e-16 relative), as before
+
+
+def _store(v, dtype: str):
+    """python number that a scipp scalar of `dtype` holds after storing v (int, or the float of the rounded value)"""
+    if dtype in ('int64', 'int32'):
+        return int(v)
+    if dtype == 'float32':
+        return float(np.float32(float(v)))
+    return float(v)
+
+
+def _gen_frequencies(rng):
+    """(ratio, f value/dtype/unit, pulse value/dtype/unit): dtype and unit independent per operand; integer and
+    single-precision operands only where the stored numbers are exact and scipp's integer / float32 unit conversion
+    of the pulse frequency is exact (otherwise that operand falls back to float64)"""
     ratio = rng.choice(RATIOS)
     sign = rng.choice([-1, 1])
     pf_unit = rng.choice(['Hz', 'Hz', 'kHz', '1/min'])
     f_unit = pf_unit if rng.random() < 0.7 else rng.choice(['Hz', 'kHz', '1/min'])
     pf_hz = rng.choice([Fraction(14), Fraction(10), Fraction(60), Fraction(50), Fraction(7, 2), Fraction(25)])
-    pf_val = float(pf_hz / F_UNITS[pf_unit])
-    f_val = float(sign * ratio * pf_hz / F_UNITS[f_unit])
-    slits = gen_slits(rng)
+    pf_v = pf_hz / F_UNITS[pf_unit]
+    f_v = sign * ratio * pf_hz / F_UNITS[f_unit]
+    f_dtype, pf_dtype = rng.choice(DTYPES), rng.choice(DTYPES)
+    if not _representable(f_v, f_dtype):
+        f_dtype = 'float64'
+    if not _representable(pf_v, pf_dtype):
+        pf_dtype = 'float64'
+    if pf_dtype != 'float64' and f_unit != pf_unit and not _representable(pf_hz / F_UNITS[f_unit], pf_dtype):
+        pf_dtype = 'float64'            # pulse_frequency.to(unit=frequency.unit) would round
+    if pf_dtype == 'float32' and f_unit != pf_unit:
+        pf_dtype = 'float64'            # single-precision multiplication by 1/60 or 60 rounds
+    if f_dtype == 'float32' and f_unit != pf_unit and pf_dtype in ('int64', 'int32', 'float32'):
+        f_dtype = 'float64'
+    return ratio * sign, (_store(f_v, f_dtype), f_dtype, f_unit), (_store(pf_v, pf_dtype), pf_dtype, pf_unit)
+
+
+def _gen_angle(rng, unit, dtype):
+    """beam position / phase over several turns, stored value of the given dtype in the given unit"""
+    if dtype in ('int64', 'int32'):
+        if unit == 'deg':
+            return rng.choice([45, 30, -90, 725, 1, rng.randint(-1080, 1080)])
+        if unit == 'rad':
+            return rng.randint(-18, 18)
+        return rng.randint(-18000, 18000)
     ang_den = rng.choice([1, 4, 720, 7])
-    beam = _rat(rng, -3, 3, ang_den) if rng.random() < 0.85 else Fraction(0)
-    phase = _rat(rng, -3, 3, ang_den) if rng.random() < 0.85 else Fraction(0)
-    return dict(ratio=ratio * sign, f_val=f_val, f_unit=f_unit, pf_val=pf_val, pf_unit=pf_unit, slits=slits,
-                slit_unit=rng.choice(['deg', 'deg', 'rad']), beam=beam, beam_unit=rng.choice(['deg', 'rad']),
-                phase=phase, phase_unit=rng.choice(['deg', 'rad']), npulses=rng.randint(1, 4))
+    turns = _rat(rng, -3, 3, ang_den) if rng.random() < 0.85 else Fraction(0)
+    v = turns * 360 if unit == 'deg' else float(turns) * 2.0 * math.pi * (1000 if unit == 'mrad' else 1)
+    return _store(v, dtype)
+
+
+def _gen_slit_values(rng, unit, dtype):
+    """(begins, ends) as stored values: non-overlapping, within one turn of the first begin, gaps and widths
+    >= 1/720 turn (>= 1 degree / 1 rad / 10 mrad for integer dtypes)"""
+    if dtype in ('int64', 'int32') and unit != 'deg':
+        k = rng.randint(1, 3)
+        if unit == 'rad':
+            pts = sorted(rng.sample(range(0, 7), 2 * k))
+        else:
+            pts = [10 * v for v in sorted(rng.sample(range(0, 628), 2 * k))]
+        sl = [(pts[2 * i], pts[2 * i + 1]) for i in range(k)]
+        rng.shuffle(sl)
+        return [b for b, _ in sl], [e for _, e in sl]
+    slits = gen_slits(rng, den=360 if dtype in ('int64', 'int32') else 720)
+    out = []
+    for b, e in slits:
+        if unit == 'deg':
+            out.append((_store(b * 360, dtype), _store(e * 360, dtype)))
+        else:
+            m = 2.0 * math.pi * (1000 if unit == 'mrad' else 1)
+            out.append((_store(float(b) * m, dtype), _store(float(e) * m, dtype)))
+    return [b for b, _ in out], [e for _, e in out]
+
+
+def _finish_disk(c):
+    """derived exact quantities (turns) of a typed case; also used after decoding a stored witness"""
+    st = ANGLE_TURNS[c['slit_unit']]
+    c['slits'] = [(Fraction(b) * st, Fraction(e) * st) for b, e in zip(c['slit_begin_vals'], c['slit_end_vals'])]
+    c['beam'] = Fraction(c['beam_val']) * ANGLE_TURNS[c['beam_unit']]
+    c['phase'] = Fraction(c['phase_val']) * ANGLE_TURNS[c['phase_unit']]
+    return c
+
+
+def gen_disk(rng):
+    """dtype and unit are chosen independently for every operand"""
+    ratio, (f_val, f_dtype, f_unit), (pf_val, pf_dtype, pf_unit) = _gen_frequencies(rng)
+    c = dict(ratio=ratio, f_val=f_val, f_dtype=f_dtype, f_unit=f_unit, pf_val=pf_val, pf_dtype=pf_dtype, pf_unit=pf_unit,
+             npulses=rng.randint(1, 4))
+    for name in ('beam', 'phase'):
+        c[name + '_unit'] = rng.choice(ANGLE_UNITS)
+        c[name + '_dtype'] = rng.choice(DTYPES)
+        c[name + '_val'] = _gen_angle(rng, c[name + '_unit'], c[name + '_dtype'])
+    c['slit_unit'] = rng.choice(ANGLE_UNITS)
+    c['slit_dtype'] = rng.choice(DTYPES)
+    c['slit_begin_vals'], c['slit_end_vals'] = _gen_slit_values(rng, c['slit_unit'], c['slit_dtype'])
+    return _finish_disk(c)
 
 
 def _angle_float(turns: Fraction, unit: str) -> float:
@@ -197,6 +293,16 @@ def make_chopper(c):
     import scipp as sc
     from scippneutron.chopper import DiskChopper
 
+    if 'beam_val' in c:      # typed case: every operand with its own dtype and unit
+        ch = DiskChopper(
+            axle_position=sc.vector([0.0, 0.0, 7.5], unit='m'),
+            frequency=sc.scalar(c['f_val'], unit=c['f_unit'], dtype=c['f_dtype']),
+            beam_position=sc.scalar(c['beam_val'], unit=c['beam_unit'], dtype=c['beam_dtype']),
+            phase=sc.scalar(c['phase_val'], unit=c['phase_unit'], dtype=c['phase_dtype']),
+            slit_begin=sc.array(dims=['slit'], values=np.array(c['slit_begin_vals'], dtype=c['slit_dtype']), unit=c['slit_unit']),
+            slit_end=sc.array(dims=['slit'], values=np.array(c['slit_end_vals'], dtype=c['slit_dtype']), unit=c['slit_unit']),
+        )
+        return ch, sc.scalar(c['pf_val'], unit=c['pf_unit'], dtype=c['pf_dtype'])
     b = np.array([_angle_float(s[0], c['slit_unit']) for s in c['slits']], dtype='float64')
     e = np.array([_angle_float(s[1], c['slit_unit']) for s in c['slits']], dtype='float64')
     ch = DiskChopper(
@@ -227,6 +333,8 @@ def _to_seconds(var):
 def exact_inputs(c):
     f = Fraction(c['f_val']) * F_UNITS[c['f_unit']]
     pf = Fraction(c['pf_val']) * F_UNITS[c['pf_unit']]
+    if 'beam_val' in c:      # the exact value of every typed input (radians via 1/(2 pi) to 1.1e-16)
+        return f, pf, c['beam'], c['phase'], list(c['slits'])
     beam = _angle_exact(c['beam'], c['beam_unit'])
     phase = _angle_exact(c['phase'], c['phase_unit'])
     slits = [(_angle_exact(b, c['slit_unit']), _angle_exact(e, c['slit_unit'])) for b, e in c['slits']]
@@ -289,15 +397,24 @@ def disk_line(op, c):
     return ' '.join(head)
 
 
+TYPED_KEYS = ['f_dtype', 'pf_dtype', 'beam_val', 'beam_dtype', 'phase_val', 'phase_dtype', 'slit_begin_vals',
+              'slit_end_vals', 'slit_dtype']
+
+
 def _disk_sample(c):
-    return {'ratio': str(c['ratio']), 'f': [c['f_val'], c['f_unit']], 'pf': [c['pf_val'], c['pf_unit']],
-            'slits_turns': [[str(b), str(e)] for b, e in c['slits']], 'slit_unit': c['slit_unit'],
-            'beam_turns': str(c['beam']), 'phase_turns': str(c['phase']), 'npulses': c['npulses']}
+    d = {'ratio': str(c['ratio']), 'f': [c['f_val'], c.get('f_dtype', 'float64'), c['f_unit']],
+         'pf': [c['pf_val'], c.get('pf_dtype', 'float64'), c['pf_unit']],
+         'slits_turns': [[str(b), str(e)] for b, e in c['slits']], 'slit_unit': c['slit_unit'],
+         'beam_turns': str(c['beam']), 'phase_turns': str(c['phase']), 'npulses': c['npulses']}
+    if 'beam_val' in c:
+        d.update(beam=[c['beam_val'], c['beam_dtype'], c['beam_unit']], phase=[c['phase_val'], c['phase_dtype'], c['phase_unit']],
+                 slit_begin=c['slit_begin_vals'], slit_end=c['slit_end_vals'], slit_dtype=c['slit_dtype'])
+    return d
 
 
 def _disk_ident(c):
     return (c['f_val'], c['f_unit'], c['pf_val'], c['pf_unit'], tuple(c['slits']), c['slit_unit'], c['beam'], c['beam_unit'],
-            c['phase'], c['phase_unit'])
+            c['phase'], c['phase_unit'], tuple(str(c.get(k)) for k in TYPED_KEYS))
 
 
 # ---- edges (rejection of slit sets) ----------------------------------------------------------
@@ -484,7 +601,13 @@ def correspond(ctx):
         nontrivial = len(c['slits']) > 0 and (c['beam'] != 0 or c['phase'] != 0)
         ctx.case(('times', _disk_ident(c)), nontrivial, sample={'op': 'times', **_disk_sample(c)})
         ctx.count(f"times:ratio={abs(c['ratio'])}:{'cw' if c['ratio'] < 0 else 'acw'}")
-        ctx.count(f"units:{c['f_unit']}|{c['pf_unit']}|{c['slit_unit']}|{c['beam_unit']}|{c['phase_unit']}")
+        ctx.count(f"units:f={c['f_unit']}:pf={c['pf_unit']}")
+        for nm in ('slit', 'beam', 'phase'):
+            ctx.count(f"operand:{nm}:{c.get(nm + '_dtype', 'float64')}:{c[nm + '_unit']}")
+        ctx.count(f"operand:f:{c.get('f_dtype', 'float64')}")
+        ctx.count(f"operand:pf:{c.get('pf_dtype', 'float64')}")
+        if c.get('beam_dtype', 'float64').startswith('int') and c['beam_unit'] != c['phase_unit']:
+            ctx.count('operand:int-beam-other-unit-than-phase')
         ctx.count(f"slits:{len(c['slits'])}:{'tdc' if any(e > 1 for _, e in c['slits']) else 'plain'}")
         if not out.startswith('ok') or not isinstance(impl, tuple):
             if (impl if isinstance(impl, str) else 'ok') != out.split()[0]:
@@ -732,6 +855,8 @@ def _encode_disk(c):
 def _decode_disk(j):
     c = dict(j)
     c['ratio'] = Fraction(j['ratio'])
+    if 'beam_val' in j:
+        return _finish_disk(c)
     c['slits'] = [(Fraction(b), Fraction(e)) for b, e in j['slits']]
     c['beam'] = Fraction(j['beam'])
     c['phase'] = Fraction(j['phase'])
